@@ -145,7 +145,8 @@ def _compressed(rng):
 def fam_ops(rng):
     rs = rules.gen_ruleset(rng, p_trail=0.0)
     cfg = rt.Config(ledger=rng.random() < 0.5, backend=_backend(rng), topt=rng.choice(TOPTS), interactive=rng.choice([None, False]),
-                    yymore=rng.random() < 0.5, stack=rng.random() < 0.6, array=rng.random() < 0.3)
+                    yymore=rng.random() < 0.5, stack=rng.random() < 0.6, array=rng.random() < 0.4,
+                    yylmax=rng.choice([None, 3, 5, 8, 13, 40]))
     return rs, cfg, _ops_case()
 
 
@@ -159,19 +160,19 @@ def fam_unput(rng):
 def fam_reject(rng):
     rs = rules.gen_ruleset(rng, p_trail=0.0)
     cfg = rt.Config(ledger=rng.random() < 0.5, backend=_backend(rng), topt=_compressed(rng), interactive=rng.choice([None, False]),
-                    reject=True, lineno=rng.random() < 0.4, array=rng.random() < 0.3)
-    return rs, cfg, _ops_case(kinds=['reject', 'reject', 'begin', 'return'], small=False)
+                    reject=True, lineno=rng.random() < 0.4, array=rng.random() < 0.3, yymore=rng.random() < 0.4)
+    return rs, cfg, _ops_case(kinds=['reject', 'reject', 'begin', 'return'] + (['more'] if cfg.yymore else []), small=False)
 
 
 def fam_lineno(rng):
-    rs = rules.gen_ruleset(rng, p_trail=0.2)
+    rs = rules.gen_ruleset(rng, p_trail=0.2, p_chain=rng.choice([0.0, 0.2]))
     cfg = rt.Config(ledger=rng.random() < 0.5, backend=_backend(rng), topt=rng.choice(TOPTS), interactive=rng.choice([None, False]),
-                    lineno=True, yymore=rng.random() < 0.4)
+                    lineno=True, yymore=rng.random() < 0.5, array=rng.random() < 0.4)
     return rs, cfg, _ops_case(kinds=['less', 'input', 'more', 'return'] if cfg.yymore else ['less', 'input', 'return'])
 
 
 def fam_trail(rng):
-    rs = rules.gen_ruleset(rng, p_trail=0.6, p_bol=0.3)
+    rs = rules.gen_ruleset(rng, p_trail=0.6, p_bol=0.3, p_chain=rng.choice([0.0, 0.25, 0.4]))
     cfg = rt.Config(ledger=rng.random() < 0.5, backend=_backend(rng), topt=rng.choice(TOPTS), interactive=rng.choice([None, False]))
     return rs, cfg, _ops_case(kinds=['less', 'return'])
 
@@ -306,6 +307,10 @@ def _include_case(rng, rs, cfg):
             acts[k] = ['input']
         elif x < 0.33 and cfg.lineno:
             acts[k] = ['getlineno']
+    if rng.random() < 0.5:
+        # includes ended by yywrap(): it pops the buffer stack and returns 0
+        return dict(srcs=srcs, main=['lex'] * 12, acts=acts, wraps=['p'] * 40, sched=rtgen.gen_sched(rng),
+                    bufsize=rng.choice(rtgen.BUFSIZES))
     return dict(srcs=srcs, main=['lex'] * 12, acts=acts, wraps=None, sched=rtgen.gen_sched(rng),
                 bufsize=rng.choice(rtgen.BUFSIZES), eofact=['include_end'])
 
